@@ -351,7 +351,7 @@ impl Property for C18P {
     }
     fn rule(&self) -> String {
         "(a) proptest texts starting with an ASCII character or a BOM (token soups, Unicode mixes incl. astral and boundary code points, \
-         long UTF-16-expanding texts up to ~4k chars) encoded with std (as_bytes / encode_utf16) as UTF-8, UTF-8+BOM, UTF-16LE/BE with \
+         long UTF-16-expanding texts up to ~4k chars, block scalars under indentation 0..140, the golden documents) encoded with std (as_bytes / encode_utf16) as UTF-8, UTF-8+BOM, UTF-16LE/BE with \
          and without BOM, decoded under a generated trap mode: decode() must equal Yaml::load_from_str(text) (documents or scan error), \
          callback never invoked. (b) every byte string up to the stated length over {00,0A,20,2D,41,80,C3,E4,FE,FF} x 6 trap modes \
          (strict, ignore, replace, callback continue / break with message / break with empty message), plus random, truncated and \
